@@ -5,7 +5,8 @@ open Otel Otel.Wire Otel.C06
 
 /-! Line kinds
 `sched <gen> <cap> <batch> <buf> | <op> <op> … => <obs> <obs> …`   one observation per op
-   ops: `e<id>` `g+` `g-` `f<fid>` `s<k>`; forced schedules (build tag verif, hooks): `pe<id>`/`re<id>` park/release an
+   ops: `e<id>` `g+` `g-` `gc` `gd` (exporter returns nil / an error / context.Canceled / context.DeadlineExceeded:
+        the model does not distinguish the kinds of error) `f<fid>` `s<k>`; forced schedules (build tag verif, hooks): `pe<id>`/`re<id>` park/release an
         Emit after its stopped check, `pf<fid>`/`rf<fid>` a ForceFlush after its stopped check, `ps<k>`/`rs` Shutdown at
         the entry of bufferExporter.Export (queue already flushed)
    obs: `L=<b1/b2/…>;X=<0|1>;F=<fid>:<p|o|e>,…;S=<k>:<p|o|e>,…;D=<queue.dropped>;Q=<queue len>;E=<ids enqueued>;M=<changed records seen>`
@@ -22,7 +23,7 @@ def parseDot (s : String) : Option (List Nat) :=
   if s == "-" then some [] else (s.splitOn ".").mapM (·.toNat?)
 
 def parseOp (t : String) : Option Op :=
-  if t == "g+" then some (.gate true) else if t == "g-" then some (.gate false)
+  if t == "g+" then some (.gate true) else if t == "g-" || t == "gc" || t == "gd" then some (.gate false)
   else if t == "rs" then some .rsd
   else if t.startsWith "pe" then (dropS t 2).toNat?.map .pemit
   else if t.startsWith "re" then (dropS t 2).toNat?.map .remit
